@@ -488,7 +488,12 @@ static struct Register {
 		}
 #if SEL(0)
 		// generation counters on different sides of the wrap (C19's extreme, copies/moves/swaps between such lists)
+#ifdef VERIF_NEARWRAP_ALL
+		for(int p = 0; p <= 4; ++p) { Cfg c; c.preset = p; c.nested = true; addUnit<ACallbackList<ST>, false>(fmt(VERIF_PREFIX "/CallbackList/single/near-wrap%d", p), 0, c, 5, 8, 1, 1); }
+		for(int p = 0; p <= 4; p += 2) { Cfg c; c.preset = p; c.nested = true; addUnit<ACallbackList<MT>, false>(fmt(VERIF_PREFIX "/CallbackList/multi/near-wrap%d", p), 1, c, 5, 8, 1, 1); }
+#else
 		for(int p = 0; p <= 2; ++p) { Cfg c; c.preset = p; c.nested = true; addUnit<ACallbackList<ST>, false>(fmt(VERIF_PREFIX "/CallbackList/single/near-wrap%d", p), p == 1 ? 0 : 1, c, 5, 8, 1, 1); }
+#endif
 #endif
 	}
 } reg;
